@@ -224,7 +224,13 @@ func shrink(x *inj, m proto.Message, size int64) {
 // smallerFaults: the backend's tree is smaller than the request needs; dataless replies as the
 // real backend gives them. strip removes the parts a backend cannot serve from the smaller tree.
 func smallerFaults(rpc string, strip func(m proto.Message)) []*fault {
+	keepWant := w4
+	if rpc == "GetLeavesByRange" {
+		keepWant = w45 // leaves from beyond the announced tree: caller-caused and inconsistent at once
+	}
 	return []*fault{
+		{name: "tree-one-smaller-but-data-served", class: "tree-smaller-than-needed", rpc: rpc, want: keepWant,
+			mut: func(x *inj, m proto.Message) proto.Message { shrink(x, m, x.req.needs-1); return m }},
 		{name: "tree-one-smaller-than-needed", class: "tree-smaller-than-needed", rpc: rpc, want: w4,
 			mut: func(x *inj, m proto.Message) proto.Message { shrink(x, m, x.req.needs-1); strip(m); return m }},
 		{name: "tree-empty", class: "tree-smaller-than-needed", rpc: rpc, want: w4, appl: func(r *request) bool { return r.needs > 1 },
@@ -285,7 +291,10 @@ func consistencyFaults() []*fault {
 	out = append(out, smallerFaults(rpc, func(m proto.Message) { m.(*trillian.GetConsistencyProofResponse).Proof = nil })...)
 	out = append(out,
 		&fault{name: "proof-absent", class: "proof-absent", rpc: rpc, want: w5,
-			mut: func(_ *inj, m proto.Message) proto.Message { m.(*trillian.GetConsistencyProofResponse).Proof = nil; return m }},
+			mut: func(_ *inj, m proto.Message) proto.Message {
+				m.(*trillian.GetConsistencyProofResponse).Proof = nil
+				return m
+			}},
 		// not named by the statement: a present proof without nodes where the RFC proof is non-empty
 		&fault{name: "proof-without-nodes", class: "proof-without-nodes", rpc: rpc, want: wFree, appl: func(r *request) bool { return r.pathLen > 0 },
 			mut: func(_ *inj, m proto.Message) proto.Message {
@@ -303,7 +312,10 @@ func proofByHashFaults() []*fault {
 	out = append(out,
 		// a sound tree head and no proof: the front end cannot tell "unknown hash" (caller) from a backend fault
 		&fault{name: "proof-list-empty", class: "proof-list-empty", rpc: rpc, want: w45,
-			mut: func(_ *inj, m proto.Message) proto.Message { m.(*trillian.GetInclusionProofByHashResponse).Proof = nil; return m }},
+			mut: func(_ *inj, m proto.Message) proto.Message {
+				m.(*trillian.GetInclusionProofByHashResponse).Proof = nil
+				return m
+			}},
 		&fault{name: "proof-without-nodes", class: "proof-without-nodes", rpc: rpc, want: wFree, appl: func(r *request) bool { return r.pathLen > 0 },
 			mut: func(_ *inj, m proto.Message) proto.Message {
 				v := m.(*trillian.GetInclusionProofByHashResponse)
@@ -322,17 +334,21 @@ func entryAndProofFaults() []*fault {
 		v.Leaf, v.Proof = nil, nil
 	})...)
 	out = append(out,
-		&fault{name: "tree-one-smaller-with-leaf-and-proof", class: "tree-smaller-than-needed", rpc: rpc, want: w4,
-			mut: func(x *inj, m proto.Message) proto.Message { shrink(x, m, x.req.needs-1); return m }},
 		&fault{name: "leaf-absent", class: "leaf-absent", rpc: rpc, want: w5,
-			mut: func(_ *inj, m proto.Message) proto.Message { m.(*trillian.GetEntryAndProofResponse).Leaf = nil; return m }},
+			mut: func(_ *inj, m proto.Message) proto.Message {
+				m.(*trillian.GetEntryAndProofResponse).Leaf = nil
+				return m
+			}},
 		&fault{name: "leaf-value-empty", class: "leaf-value-empty", rpc: rpc, want: w5,
 			mut: func(_ *inj, m proto.Message) proto.Message {
 				m.(*trillian.GetEntryAndProofResponse).Leaf.LeafValue = nil
 				return m
 			}},
 		&fault{name: "proof-absent", class: "proof-absent", rpc: rpc, want: w5,
-			mut: func(_ *inj, m proto.Message) proto.Message { m.(*trillian.GetEntryAndProofResponse).Proof = nil; return m }},
+			mut: func(_ *inj, m proto.Message) proto.Message {
+				m.(*trillian.GetEntryAndProofResponse).Proof = nil
+				return m
+			}},
 		&fault{name: "proof-without-nodes", class: "proof-without-nodes", rpc: rpc, want: w5, appl: func(r *request) bool { return r.pathLen > 0 },
 			mut: func(_ *inj, m proto.Message) proto.Message {
 				m.(*trillian.GetEntryAndProofResponse).Proof = &trillian.Proof{LeafIndex: m.(*trillian.GetEntryAndProofResponse).Proof.LeafIndex}
@@ -347,7 +363,9 @@ func entriesFaults() []*fault {
 	const rpc = "GetLeavesByRange"
 	out := append(errorFaults(rpc), headFaults(rpc)...)
 	out = append(out, smallerFaults(rpc, func(m proto.Message) { m.(*trillian.GetLeavesByRangeResponse).Leaves = nil })...)
-	lv := func(m proto.Message) *trillian.GetLeavesByRangeResponse { return m.(*trillian.GetLeavesByRangeResponse) }
+	lv := func(m proto.Message) *trillian.GetLeavesByRangeResponse {
+		return m.(*trillian.GetLeavesByRangeResponse)
+	}
 	full := func(r *request) bool { return r.b < nSeed-1 } // the healthy reply holds exactly the requested count and a next leaf exists
 	reidx := func(name string, appl func(*request) bool, f func(i int, n int, start int64) int64) *fault {
 		return &fault{name: name, class: "leaves-mis-indexed", rpc: rpc, want: w5, appl: appl,
